@@ -148,4 +148,29 @@ theorem session_cut (msgs : List Msg) (hall : ∀ m ∈ msgs, m.WF ∧ m.ChunkSi
         · simp only [List.length_append] at hl'
           omega
 
+
+/-- One message, cut strictly inside its bytes: an error of the transport — never a message, never a panic. -/
+theorem message_cut (c : Nat) (hc : 1 ≤ c) (m : Msg) (hm : m.WF) (st : Reader) (hic : st.inChunk = c) (hcl : Clean st)
+    (W1 : Bytes) (hw1 : writeMessage c m = .ok W1) (t k : Nat) (hk : k < W1.length) :
+    ∃ e, readMessageE st t (W1.take k) = .err e ∧ endFull t e.cause := by
+  obtain ⟨W1', st1, hw1', hr1, _, _⟩ := write_read_one c hc m hm st hic hcl []
+  have : W1' = W1 := by rw [hw1] at hw1'; exact (Res.ok.inj hw1').symm
+  subst this
+  obtain ⟨n, hl, hcut⟩ := cut_readMessageE st 0 _ _ _ (readMessageE_of_ok hr1 0)
+  simp only [List.length_nil, Nat.add_zero, List.append_nil] at hl hcut
+  exact (hcut t k).2 (by omega)
+
+/-- The same in the class-only model C01 is stated about: `readMessage` on a strict prefix of a written
+message is `err eof` or `err ueof`. -/
+theorem message_cut_class (c : Nat) (hc : 1 ≤ c) (m : Msg) (hm : m.WF) (st : Reader) (hic : st.inChunk = c) (hcl : Clean st)
+    (W1 : Bytes) (hw1 : writeMessage c m = .ok W1) (k : Nat) (hk : k < W1.length) :
+    readMessage st (W1.take k) = .err .eof ∨ readMessage st (W1.take k) = .err .ueof := by
+  obtain ⟨e, he, hce⟩ := message_cut c hc m hm st hic hcl W1 hw1 0 k hk
+  have := erase_readMessageE st (W1.take k)
+  rw [he] at this
+  rw [← this]
+  rcases hce.cut with h | h
+  · left; simp [ResE.erase, cls_of_cause h, ekOfRoot]
+  · right; simp [ResE.erase, cls_of_cause h, ekOfRoot]
+
 end Oryx.IoFault
